@@ -61,7 +61,19 @@ def entry_points():
                 v.write_to(out)
         return f
 
+    class OnlyRead:
+        """a stream that offers read() only (a serial line, a socket): no seek / tell to bound a count field with"""
+        def __init__(self, b):
+            self._s = io.BytesIO(b)
+
+        def read(self, n=-1):
+            return self._s.read(n)
+
     eps = {
+        "psbt.read_from.noseek": lambda b: PSBT.read_from(OnlyRead(b)),
+        "pset.read_from.noseek": lambda b: PSET.read_from(OnlyRead(b)),
+        "tx.read_from.noseek": lambda b: Transaction.read_from(OnlyRead(b)),
+        "ltx.read_from.noseek": lambda b: LTransaction.read_from(OnlyRead(b)),
         "tx.parse": lambda b: Transaction.parse(b),
         "tx.read_vout": lambda b: Transaction.read_vout(io.BytesIO(b), 0),
         "txin.parse": lambda b: TransactionInput.parse(b),
